@@ -2094,7 +2094,37 @@ M("v12-quiet-or-shortcut-correct", "C01", "quiet", "src/circuit.rs",
             }
         }
         let xor = self.push_xor(x, y);""", "behaviour-preserving: the same shortcut written correctly (y ^ (x & !y) = x | y)")
-REVERT("revert-duplicate-struct-fields", "C17", "fire T13", "bded4e0", "pre-fix tree: duplicated struct fields accepted, missing-field check behind a length comparison")
+M2("revert-duplicate-struct-fields", "C17", "fire T13", [
+  ("src/check.rs", """                    for (i, (field_name, _)) in fields.iter().enumerate() {
+                        if fields[..i].iter().any(|(f, _)| f == field_name) {
+                            let e = TypeErrorEnum::DuplicateStructField(
+                                name.clone(),
+                                field_name.clone(),
+                            );
+                            errors.push(Some(TypeError::new(e, meta)));
+                        }
+                    }
+                    for expected_field_name in struct_def.keys() {
+                        if !fields.iter().any(|(f, _)| f == expected_field_name) {
+                            let e = TypeErrorEnum::MissingStructField(
+                                name.clone(),
+                                expected_field_name.to_string(),
+                            );
+                            errors.push(Some(TypeError::new(e, meta)));
+                        }
+                    }""",
+   """                    if struct_def.len() > fields.len() {
+                        for expected_field_name in struct_def.keys() {
+                            if !fields.iter().any(|(f, _)| f == expected_field_name) {
+                                let e = TypeErrorEnum::MissingStructField(
+                                    name.clone(),
+                                    expected_field_name.to_string(),
+                                );
+                                errors.push(Some(TypeError::new(e, meta)));
+                            }
+                        }
+                    }"""),
+  ], "pre-fix form of bded4e0 (struct literals): duplicated fields accepted, missing-field check behind a length comparison")
 REVERT("revert-literal-mode-nodes", "C07", "fire F12", "39a66f1", "pre-fix tree: `[1; N]` and `S {a}` given to Literal::parse reach unreachable!() in into_literal")
 REVERT("revert-literal-whole-text", "C09", "fire L8", "6502ae9", "pre-fix tree: `1 2` accepted as the literal 1; `()` leaves its `)` in the stream")
 M("l9-unit-tuple-keeps-paren", "C09", "fire L9", "src/parse.rs",
